@@ -78,6 +78,10 @@ def plans_for(tier, rng):
             p["id"] = "reuse%d-%d" % (j, adm)
             q = json.loads(json.dumps(p))
             q["srv"]["final"] = f2
+            # every other pair: the second server negotiates the OEM character set (the first one UNICODE) - what the
+            # first handshake negotiated must leave no trace in the second
+            if j % 2 == 0:
+                q["srv"]["ntlm_flags"] = 0xE28A8234 | 2
             p["then"] = {"cfg": q["cfg"], "srv": q["srv"]}
             plans.append(p)
     # families: every single-bit flip of the honest reply, every truncation of token and of the request
